@@ -13,6 +13,10 @@ ASIZES = [(0.5, 'arcsec'), (2.0, 'arcsec'), (10.0, 'arcsec'),
           (30.0, 'arcsec'), (1.0, 'arcmin'), (0.05, 'deg'),
           (0.1, 'deg'), (0.5, 'deg')]                          # ascending
 ANGLES = [0.0, 30.0, 45.0, 90.0, 123.5, -60.0, 200.0]
+# the same angles, some spelled in another unit (value, unit)
+ANGLE_SPELLING = [(0.0, 'deg'), (30.0, 'deg'), (0.7853981633974483, 'rad'),
+                  (90.0, 'deg'), (7410.0, 'arcmin'), (-60.0, 'deg'),
+                  (3.490658503988659, 'rad')]
 NVERTS = [3, 4, 5, 6, 8]
 SKY_LONLAT = [(10.0, 20.0), (83.63, 22.01), (266.4, -29.0), (0.5, -0.3),
               (201.3, -43.0), (150.0, 2.2)]
@@ -123,7 +127,8 @@ def value_recipe(kind, tok):
         v, unit = ASIZES[tok]
         return {'t': 'q', 'v': v, 'u': unit}
     if kind == 'angle':
-        return {'t': 'q', 'v': ANGLES[tok], 'u': 'deg'}
+        v, unit = ANGLE_SPELLING[tok]
+        return {'t': 'q', 'v': v, 'u': unit}
     if kind == 'nvert':
         return NVERTS[tok]
     if kind == 'skypos':
